@@ -7,5 +7,5 @@ trap 'rm -rf "$D"' EXIT
 rsync -a --exclude _build --exclude .git /repo/ "$D/src/"
 cmake -G Ninja -S "$D/src" -B "$D/b" -DCMAKE_BUILD_TYPE=RelWithDebInfo >/dev/null 2>&1
 cmake --build "$D/b" -j16 >/dev/null 2>&1
-ctest --test-dir "$D/b" -R '^build_' -j4 --timeout 900 >/dev/null 2>&1
+ninja -C "$D/b" -j16 $(ctest --test-dir "$D/b" -N -R '^run_' | sed -n 's/.*: run_//p') >/dev/null 2>&1
 ctest --test-dir "$D/b" -j8 --timeout 900 2>&1 | grep -v "Passed\|Start " | tail -25
